@@ -1,10 +1,21 @@
-//! idmsim2 engine. See /verif/DESIGN.md section 2 and /verif/harness/AGENT_GUIDE.md.
+//! idmsim2 engine: OAuth2 authorisation / redemption and key-object monitors.
+//! See /verif/DESIGN.md section 2 and /verif/harness/AGENT_GUIDE.md.
+#[macro_use]
+extern crate kanidmd_lib;
+
+mod c34;
+mod c38;
+mod c39;
+mod sim;
 
 fn main() {
     let args = kvcore::parse_args();
     match args.prop.as_str() {
+        "C34" => c34::run(args),
+        "C38" => c38::run(args),
+        "C39" => c39::run(args),
         p => {
-            println!("INCONCLUSIVE property={p} reason=idmsim2 does not serve this property yet");
+            println!("INCONCLUSIVE property={p} reason=idmsim2 does not serve this property");
             std::process::exit(2);
         }
     }
